@@ -679,6 +679,11 @@ func evalCond(v ssa.Value, blk *ssa.BasicBlock, edge int, depth int) (val bool, 
 				switch x := v.(type) {
 				case *ssa.MakeInterface, *ssa.Alloc, *ssa.MakeChan, *ssa.MakeMap, *ssa.MakeSlice, *ssa.MakeClosure, *ssa.Function:
 					return false, true
+				case *ssa.Call:
+					switch CalleeName(x) {
+					case "errors.New", "fmt.Errorf":
+						return false, true // documented to return a non-nil error
+					}
 				case *ssa.UnOp:
 					// a package-level error variable that is assigned once, in its package's initialiser, from a constructor call
 					if g, ok := x.X.(*ssa.Global); ok && x.Op == token.MUL && NonNilGlobal(g) {
